@@ -15,7 +15,7 @@ import (
 func (b *builder) instance(ci compInfo, k int, inLoop bool, plans []supplyPlan, ex exclusions, rec *ev.Rec,
 	hook func(pl supplyPlan, scope []sv) []Node) Node {
 	p := fmt.Sprintf("p%d", k)
-	o := incOpts{p: p, scope: pageScope(), varName: "sp", hook: hook}
+	o := incOpts{p: p, scope: pageScope(), varName: "sp", hook: hook, coll: pageCollisions()}
 	sfx := ""
 	if k%2 == 1 {
 		sfx = "2"
@@ -34,14 +34,20 @@ func (b *builder) instance(ci compInfo, k int, inLoop bool, plans []supplyPlan, 
 	default:
 		o.title = KV{K: ci.title(), V: "pb"}
 	}
+	withExtra := func(n Node) Node {
+		for _, x := range ci.extra {
+			n.Stat = append(n.Stat, KV{K: x, V: "K3" + x})
+		}
+		return n
+	}
 	if !inLoop {
-		return b.include(ci, o, plans, ex, rec)
+		return withExtra(b.include(ci, o, plans, ex, rec))
 	}
 	idx, it := fmt.Sprintf("pi%d", k), fmt.Sprintf("pr%d", k)
 	o.scope = append([]sv{{it, "m", true}, {idx, "i", true}}, o.scope...)
 	o.static, o.title, o.rec, o.num = false, KV{K: ci.title(), V: it + ".name"}, it, idx
 	return Node{K: "el", Tag: "div", M: b.id(p + "L"), For: &For{Idx: idx, Item: it, List: "prows"},
-		Kids: []Node{b.include(ci, o, plans, ex, rec)}}
+		Kids: []Node{withExtra(b.include(ci, o, plans, ex, rec))}}
 }
 
 func page(b *builder, insts []Node) []Node {
@@ -103,7 +109,8 @@ func enumCore(ex exclusions, rec *ev.Rec, yield func(Case) bool) {
 							k = variant
 							ci := compInfo{idx: 1, file: "k1.vuego", elem: []string{"s", "m"}[variant%2], slots: map[string]slotInfo{}, order: set}
 							if variant%4 == 1 {
-								ci.file = shortNames[1]
+								b.single = variant%8 == 1
+								ci.file = b.shortFile(1)
 							}
 							var uses []useSpec
 							for _, name := range set {
@@ -131,6 +138,13 @@ func enumCore(ex exclusions, rec *ev.Rec, yield func(Case) bool) {
 							}
 							shape := []string{"div", "div", "flat", "template", "div"}[variant%5]
 							b.pageIfOnly = ex.tmplRoot && shape == "template"
+							b.collide = variant%2 == 1
+							if b.collide && ex.compScope {
+								if rec != nil {
+									rec.Excluded("C06-slot-content-sees-component-scope")
+								}
+								b.collide = false
+							}
 							c.Comps[ci.file] = b.leaf(ci, uses, variant%2 == 0, nil, shape)
 							var insts []Node
 							for inst := 0; inst < 2; inst++ {
@@ -224,15 +238,23 @@ func enumEdge(yield func(Case) bool) {
 
 var shapes = []string{"div", "div", "div", "flat", "template"}
 
-var shortNames = map[int]string{1: "components/KOne.vuego", 2: "components/KTwo.vuego", 3: "components/KThree.vuego", 4: "components/KFour.vuego"}
+// shortFile names the file of component idx when shorthand tags are used: components/KOne.vuego is
+// registered as <k-one>; with single-word names components/Kone.vuego is registered as <kone>, a tag
+// without a dash.
+func (b *builder) shortFile(idx int) string {
+	if b.single {
+		return map[int]string{1: "components/Kone.vuego", 2: "components/Ktwo.vuego", 3: "components/Kthree.vuego", 4: "components/Kfour.vuego"}[idx]
+	}
+	return map[int]string{1: "components/KOne.vuego", 2: "components/KTwo.vuego", 3: "components/KThree.vuego", 4: "components/KFour.vuego"}[idx]
+}
 
-func genLeafInfo(t *rapid.T, idx int, elem string, short bool) (compInfo, []useSpec) {
+func genLeafInfo(t *rapid.T, b *builder, idx int, elem string, short bool) (compInfo, []useSpec) {
 	ci := compInfo{idx: idx, file: fmt.Sprintf("k%d.vuego", idx), elem: elem, slots: map[string]slotInfo{}, multi: map[string]bool{}}
 	if rapid.IntRange(0, 3).Draw(t, "dir") == 0 {
 		ci.file = fmt.Sprintf("parts/k%d.vuego", idx)
 	}
 	if short {
-		ci.file = shortNames[idx]
+		ci.file = b.shortFile(idx)
 	}
 	// subset of {default, a, b}; the empty set (component without slots) is rare
 	mask := rapid.SampledFrom([]int{1, 2, 3, 3, 5, 6, 6, 7, 7, 7, 0}).Draw(t, "slotset")
@@ -318,14 +340,21 @@ func genCase(t *rapid.T, ex exclusions, rec *ev.Rec) Case {
 			rec.Excluded("C06-template-root-evaluated-twice")
 		}
 	}()
+	b.collide = rapid.IntRange(0, 2).Draw(t, "collide") > 0
+	if b.collide && ex.compScope {
+		// open known finding: supplied content is evaluated on top of the component's scopes
+		rec.Excluded("C06-slot-content-sees-component-scope")
+		b.collide = false
+	}
 
 	c.Short = rapid.IntRange(0, 3).Draw(t, "short") == 0
-	k1, u1 := genLeafInfo(t, 1, elem, c.Short)
+	b.single = c.Short && rapid.Bool().Draw(t, "single-word-tags")
+	k1, u1 := genLeafInfo(t, b, 1, elem, c.Short)
 	c.Comps[k1.file] = b.leaf(k1, u1, rapid.Bool().Draw(t, "fm1"), nil, sh[0])
 	avail := []compInfo{k1}
 	leaves := []compInfo{k1}
 	if hasK2 {
-		k2, u2 := genLeafInfo(t, 2, elem, c.Short)
+		k2, u2 := genLeafInfo(t, b, 2, elem, c.Short)
 		c.Comps[k2.file] = b.leaf(k2, u2, rapid.Bool().Draw(t, "fm2"), nil, sh[1])
 		avail = append(avail, k2)
 		leaves = append(leaves, k2)
@@ -382,6 +411,14 @@ func genCase(t *rapid.T, ex exclusions, rec *ev.Rec) Case {
 					o.items = "plist"
 				} else {
 					o.items = "prows"
+				}
+				switch pl.scope {
+				case "destr":
+					// names the enclosing template destructured are variables of this includer
+					o.boundExtra = ci.slots[pl.name].props
+				case "":
+					// names the enclosing unscoped content may see directly (see tainted)
+					o.tainted = ci.slots[pl.name].props
 				}
 				return []Node{b.include(inner, o, genPlans(t, inner, pl.scope != "destr"), ex, rec)}
 			}
@@ -462,7 +499,7 @@ func genOuter(t *rapid.T, b *builder, c *Case, leaves []compInfo, elem, shape st
 	inner := leaves[rapid.IntRange(0, len(leaves)-1).Draw(t, "outer-inner")]
 	file3 := "k3.vuego"
 	if c.Short {
-		file3 = shortNames[3]
+		file3 = b.shortFile(3)
 	}
 	k3 := compInfo{idx: 3, file: file3, elem: elem, slots: map[string]slotInfo{}, multi: map[string]bool{}}
 	fm := rapid.Bool().Draw(t, "fm3")
@@ -514,7 +551,14 @@ func genOuter(t *rapid.T, b *builder, c *Case, leaves []compInfo, elem, shape st
 		}
 		return []Node{s}
 	}
-	o := incOpts{p: "k3", scope: scope, varName: "sq", hook: hook,
+	var coll []sv
+	if b.collide {
+		for _, x := range []string{inner.title(), inner.num(), inner.fmk(), fmt.Sprintf("ci%d", inner.idx), "n"} {
+			k3.extra = append(k3.extra, x)
+			coll = append(coll, sv{x, "s", true})
+		}
+	}
+	o := incOpts{p: "k3", scope: scope, varName: "sq", hook: hook, coll: coll,
 		title: KV{K: inner.title(), V: k3.title()}, num: k3.num(), items: k3.items(), rec: k3.rec()}
 	if rapid.Bool().Draw(t, "outer-static-title") {
 		o.static, o.title = true, KV{K: inner.title(), V: "TI"}
